@@ -261,6 +261,24 @@ static int run_case(const std::string& text)
           }
         }
       }
+    } else if (name == "reexpand") { // ["reexpand", v, k, w]: declare again, with weight w, the k-th resource that variable v already uses
+      if (vars.empty()) {
+        line["skip"] = true;
+      } else {
+        SVar& sv = vars[op[1].get<int>() % vars.size()];
+        if (sv.elems.empty() || (sv.solved && not late_expand)) {
+          line["skip"] = true;
+        } else {
+          SElem& el = sv.elems[op[2].get<int>() % sv.elems.size()];
+          double w  = op[3];
+          sys->expand(cnsts[el.c].c, sv.v, w);
+          el.wmax = std::max(el.wmax, w);
+          if (cnsts[el.c].policy != 0)
+            el.w += w;
+          else
+            el.w = std::max(el.w, w);
+        }
+      }
     } else if (name == "vbound") {
       if (vars.empty())
         line["skip"] = true;
